@@ -317,6 +317,34 @@ fn edit_source(rng: &mut Rng, p: &Project, a: &Analysis) -> Option<Op> {
     })
 }
 
+/// After a successful build, make a directive of one source fail at execution time: insert an
+/// erroneous directive, or remove a plain file that some source includes.
+fn error_edit_op(rng: &mut Rng, p: &Project, a: &Analysis) -> Option<Op> {
+    if a.n() == 0 {
+        return None;
+    }
+    if rng.chance(1, 3) {
+        for path in ["plain1.txt", "sub/plain2.txt", "lib/plain3.txt", "plain4.txt"] {
+            let used = a.sources.iter().any(|s| {
+                s.text
+                    .as_deref()
+                    .map(|t| t.contains(crate::names::file_name(path)))
+                    .unwrap_or(false)
+            });
+            if used && rng.chance(1, 2) {
+                return Some(Op::Remove { path: path.to_string() });
+            }
+        }
+    }
+    let src = a.sources[rng.below(a.n())].path.clone();
+    let mut q = p.clone();
+    let _kind = gen::inject_error(rng, &mut q, &src);
+    q.file(&src).map(|d| Op::Write {
+        path: src.clone(),
+        data: d.clone(),
+    })
+}
+
 fn tamper_op(rng: &mut Rng, path: &str) -> Op {
     let kinds = [
         TamperKind::Flip,
@@ -379,7 +407,13 @@ pub fn gen(prop: &str, seed: u64, index: u64, _tier: Tier) -> Case {
                 });
                 variant = "tamper-boundary-sized".into();
             } else {
-            match rng.below(8) {
+            match rng.below(9) {
+                8 => {
+                    if let Some(op) = error_edit_op(&mut rng, &project, &a) {
+                        ops.push(op);
+                        variant = "error-edit".into();
+                    }
+                }
                 0..=4 => {
                     // tamper an output of the requested closure (requested file or dependency)
                     if !req.is_empty() {
@@ -584,6 +618,12 @@ pub fn gen(prop: &str, seed: u64, index: u64, _tier: Tier) -> Case {
                     if !g.is_empty() {
                         let path = rng.pick(&g).clone();
                         ops.push(tamper_op(&mut rng, &path));
+                    }
+                }
+                if rng.chance(1, 5) {
+                    // a directive that starts failing after earlier runs succeeded
+                    if let Some(op) = error_edit_op(&mut rng, &p, &a) {
+                        ops.push(op);
                     }
                 }
                 ops.push(Op::Sentinel);
